@@ -62,7 +62,7 @@ def rule_projection_list(eng, rep, rule="C09-2.bound-box-projected-last-and-neve
             rep.bad(rule, "Model.projections [%r]" % c, "solver.solve|last-projector-not-the-box", "the last projector of the solver's list is not the box built in solve")
             continue
         sub, cenv = it.closures[last.tag]
-        probe = it.invoke({"fi": sub, "rets": []}, None, sub, [frames.vec("?", tag="probe")], {}, cenv)
+        probe = it.invoke({"fi": sub, "rets": []}, None, sub, [frames.vec("?", tag="probe")], {}, cenv.now())
         if frames.is_vec(probe) and REQUIRED <= set(probe.ex):
             rep.ok(rule, "Model.projections [%r]" % c, "last projector `%s` clamps against the user's bounds (lo:user.xl, hi:user.xu); %d user projector(s) before it" % (short(sub.node, 40), len(pl.items) - 1))
         else:
@@ -139,6 +139,71 @@ def rule_evaluations_are_dykstra_outputs(eng, rep, rule="C09-1.every-evaluated-p
             rep.bad(rule, eng.where(fi), "%s|no-dykstra-branch" % fid, "no branch returns a dykstra(...) result")
 
 
+def rule_at_least_one_sweep(eng, rep, rule="C09-6.every-dykstra-call-performs-at-least-one-sweep"):
+    """The frame analysis (and the statement) rely on the result of dykstra being a projector output.  With zero sweeps dykstra returns its input.
+    Every call site must therefore run >= 1 sweep: the iteration limit is the default / a literal >= 1 / a parameter whose table lower bound is >= 1."""
+    from ..norm import const_value
+    from ..resolve import bind_call
+    from .common import param_key
+    from .c07 import param_registry
+    dy = eng.fn("util.dykstra")
+    lim = None
+    for p_ in dy.all_params:
+        if "iter" in p_:
+            lim = p_
+    if lim is None:
+        raise AnalysisError("dykstra has no iteration-limit parameter")
+    defaults, typed = param_registry(eng)
+    dflt = const_value(dy.defaults.get(lim))
+    n = 0
+
+    def lower_bound(eng, fi, e, depth=0):
+        """Static lower bound of an iteration-limit expression, or None."""
+        c = const_value(e)
+        if c is not None:
+            return c
+        if isinstance(e, ast.Call):
+            k = param_key(eng, e)
+            if k is not None:
+                tup = typed.get(k)
+                return const_value(tup.elts[2]) if tup is not None and len(tup.elts) == 4 else None
+        if isinstance(e, ast.Name) and depth < 3:
+            # a parameter of the enclosing routine: minimum over what its callers pass
+            owner = fi
+            while owner is not None and e.id not in owner.all_params:
+                owner = owner.parent
+            if owner is None:
+                return None
+            vals = []
+            if e.id in owner.defaults and any(True for _ in [0]):
+                pass
+            for ci in eng.res.callers.get(owner.fid, []):
+                for (t, bound) in eng.res.call_targets(ci.caller, ci.node):
+                    if t.fid != owner.fid:
+                        continue
+                    b = bind_call(ci.node, t, bound and t.is_method)
+                    a = b.params.get(e.id)
+                    if a is None:
+                        return None
+                    vals.append(lower_bound(eng, ci.caller, a[1] if isinstance(a, tuple) else a, depth + 1))
+            if vals and all(v is not None for v in vals):
+                return min(vals)
+        return None
+
+    for ci in eng.calls_to(dy.fid):
+        n += 1
+        b = bind_call(ci.node, dy, False)
+        a = b.params.get(lim)
+        site = eng.where(ci.caller, ci.node)
+        lb = dflt if isinstance(a, tuple) or a is None else lower_bound(eng, ci.caller, a)
+        if lb is not None and lb >= 1:
+            rep.ok(rule, site, "iteration limit `%s` >= %s" % ("default" if isinstance(a, tuple) or a is None else ekey(a)[:40], lb))
+        else:
+            rep.bad(rule, site, "%s|dykstra-may-run-zero-sweeps|%s" % (ci.caller.fid, "default" if isinstance(a, tuple) or a is None else ekey(a)[:30]),
+                    "this dykstra call can run zero sweeps (iteration limit `%s` has lower bound %s): it then returns its input unprojected" % (ekey(a)[:40] if a is not None and not isinstance(a, tuple) else "default", lb))
+    rep.require_count(rule, "dykstra call sites", n, 8)
+
+
 def run(eng, rep):
     rep.explain("C09: frame/exactness interpretation under the two configurations with projections: every x handed to objfun (x0 included) is the unmodified "
                 "output of a Dykstra call whose last projector clamps against copies of the user's bounds; T11 inventory of every mutation of a list that may hold "
@@ -149,3 +214,4 @@ def run(eng, rep):
     rule_evaluations_are_dykstra_outputs(eng, rep)
     rule_projection_list(eng, rep)
     rule_scaling_off_with_projections(eng, rep)
+    rule_at_least_one_sweep(eng, rep)
